@@ -329,3 +329,56 @@ Definition mon_C16 (c impl : val) : val :=
   VL (rmon_fold 16 0 (vL (vnth 2 c)) (vL impl) (mkRobs 0 [] [] [] []) (mkRtrack [] [] [] []) (map vB (vL (vnth 0 c))) (map vB (vL (vnth 1 c)))).
 Definition mon_C17 (c impl : val) : val :=
   VL (rmon_fold 17 0 (vL (vnth 2 c)) (vL impl) (mkRobs 0 [] [] [] []) (mkRtrack [] [] [] []) (map vB (vL (vnth 0 c))) (map vB (vL (vnth 1 c)))).
+
+(* ---------- genesis export / import (C15) on the registry state ---------- *)
+(* delegate keys are exported from the validator->address index and re-imported into all three maps;
+   outgoing txs are exported; confirmations are not *)
+(* getDelegateKeys walks the validator->address index and looks the orchestrator up through the
+   address; InitGenesis rebuilds the three maps from these triples.  Index entries left behind by an
+   earlier registration of the same validator (its previous address and orchestrator) are not
+   reachable that way and do not survive. *)
+Definition rrestart (s : rstate) : rstate :=
+  let triples := flat_map (fun kv : bytes * bytes =>
+                             let (c, v) := split_ck (fst kv) in
+                             match aget (ck c (snd kv)) (rs_ext_orch s) with
+                             | Some o => [(c, v, o, snd kv)]
+                             | None => []
+                             end) (rs_val_ext s) in
+  mkRs (rs_chains s)
+       (fold_left (fun m (t : bytes * bytes * bytes * bytes) => let '(c, v, o, e) := t in aset (ck c v) e m) triples [])
+       (fold_left (fun m (t : bytes * bytes * bytes * bytes) => let '(c, v, o, e) := t in aset (ck c o) v m) triples [])
+       (fold_left (fun m (t : bytes * bytes * bytes * bytes) => let '(c, v, o, e) := t in aset (ck c e) o m) triples [])
+       [] (rs_otxs s) (rs_vals s) (rs_log s).
+Definition reggen_run (c : val) : val :=
+  let chains := map vB (vL (vnth 0 c)) in
+  let askers := map vB (vL (vnth 1 c)) in
+  VL (snd (fold_left (fun (acc : rstate * list val) (ov : val) =>
+                        let (s, out) := acc in
+                        if vI (vnth 0 ov) =? 9 then (rrestart s, out ++ [VL [VI 0; enc_rstate (rrestart s) askers]])
+                        else let (s', code) := rstep s (dec_rop ov) in (s', out ++ [VL [vNat code; enc_rstate s' askers]]))
+                     (vL (vnth 2 c)) (rinit chains, []))).
+Definition k_c15_keys := rstr [67;49;53;47;108;111;115;116;58;100;101;108;101;103;97;116;101;45;107;101;121;115].                       (* C15/lost:delegate-keys *)
+Definition k_c15_confs := rstr [67;49;53;47;108;111;115;116;58;99;111;110;102;105;114;109;97;116;105;111;110;115].                     (* C15/lost:confirmations *)
+Definition k_c15_keys_changed := rstr [67;49;53;47;99;104;97;110;103;101;100;58;99;117;114;114;101;110;116;45;100;101;108;101;103;97;116;101;45;107;101;121;115]. (* C15/changed:current-delegate-keys *)
+Definition mon_C15_reg (c impl : val) : val :=
+  let outs := vL impl in
+  VL (snd (fold_left
+    (fun (acc : nat * list val) (ov : val) =>
+       let i := fst acc in
+       (S i, snd acc ++
+             (if (vI (vnth 0 ov) =? 9) && Nat.ltb 0 i then
+                let b := vnth 1 (nth (i - 1) outs (VL [])) in
+                let a := vnth 1 (nth i outs (VL [])) in
+                let items k v := tl (vL (vnth k v)) in
+                let seteq x y := forallb (fun e => existsb (veqb e) y) x && forallb (fun e => existsb (veqb e) x) y in
+                (* the current bindings: every validator's address, and through it its orchestrator *)
+                let cur_orch := flat_map (fun ve => filter (fun eo => veqb (vnth 0 eo) (vnth 0 ve) && veqb (vnth 1 eo) (vnth 2 ve)) (items 2%nat b)) (items 0%nat b) in
+                let cur_orch_val := flat_map (fun ve => map (fun eo => VL [vnth 0 ve; vnth 2 eo; vnth 1 ve])
+                                                            (filter (fun eo => veqb (vnth 0 eo) (vnth 0 ve) && veqb (vnth 1 eo) (vnth 2 ve)) (items 2%nat b))) (items 0%nat b) in
+                (if seteq (items 0%nat b) (items 0%nat a) && seteq cur_orch (items 2%nat a) && seteq cur_orch_val (items 1%nat a) then
+                   (* only index entries of replaced keys are gone *)
+                   if seteq (items 1%nat b) (items 1%nat a) && seteq (items 2%nat b) (items 2%nat a) then [] else [VL [k_c15_keys; VI (Z.of_nat i)]]
+                 else [VL [k_c15_keys_changed; VI (Z.of_nat i)]])
+                ++ (if seteq (items 3%nat b) (items 3%nat a) then [] else [VL [k_c15_confs; VI (Z.of_nat i)]])
+              else [])))
+    (vL (vnth 2 c)) (O, []))).
